@@ -48,6 +48,7 @@ func (e *Env) child(g int) *Env {
 	c.nextObj = 1000000 + g*1000000
 	c.keybuf = nil // every goroutine is its own caller with its own key buffer
 	c.fieldLists = nil
+	c.ditLast = map[int]*keptEntry{}
 	c.retFields, c.retDocNums = nil, nil
 	c.statObjs = nil
 	return &c
